@@ -276,8 +276,12 @@ impl StableModel {
             return;
         }
         assert!(idx <= self.last_index(), "HARNESS: model compacts everything");
+        // Storage::term: "The term of the entry before first_index is retained for matching purpose"
+        let boundary = self.entries[(idx - 1 - self.first) as usize].term;
         self.entries.drain(..(idx - self.first) as usize);
         self.first = idx;
+        self.snap_index = idx - 1;
+        self.snap_term = boundary;
     }
     pub fn apply_snapshot(&mut self, s: &Snapshot) {
         let m = s.get_metadata();
